@@ -44,6 +44,8 @@ type HostSpec struct {
 	// a mutex the caller holds meanwhile: a goroutine blocked on a sync.Mutex is not "durably
 	// blocked", so the bubble's clock would never advance (not used by the generators for that reason).
 	TokenDelayMs int `json:"token_delay_ms,omitempty"`
+	// ErrContentType: the Content-Type of the registry's 401 responses ("" = none)
+	ErrContentType string `json:"err_content_type,omitempty"`
 	// Retry401: what the 401 given to a request that presented a Bearer token carries instead of the
 	// usual challenge: "" = the usual challenge; "nohdr" = no Www-Authenticate at all; "negotiate" = an
 	// unsupported scheme; "malformed" = an unparsable header.
@@ -352,6 +354,9 @@ func (w *World) registry(h *HostSpec, req *http.Request, a *Arrival) *http.Respo
 		hdr.Add("Www-Authenticate", x)
 	}
 	a.ChalText, a.ChalHdr = text, hs
+	if h.ErrContentType != "" {
+		hdr.Set("Content-Type", h.ErrContentType)
+	}
 	a.Status = 401
 	return resp(req, 401, hdr, `{"errors":[{"code":"UNAUTHORIZED","message":"authentication required"}]}`)
 }
